@@ -244,9 +244,8 @@ def _rd_round_div_max(xs, x, fr):
 
 
 def _rd_sign_log(xs, x, fr):
-    if x == 0:
-        return NAN
-    return f_log(x) if x > 0 else -f_log(-x)
+    # the name, literally: div(x, abs(x)) * log(abs(x)); = sign(x) * log|x| on finite x != 0, nan at 0 and at +-inf
+    return f_div(x, abs(x)) * f_log(abs(x))
 
 
 READING = {
@@ -273,12 +272,12 @@ def reading_of(name):
 
 
 def close(a, b):
-    """nan-aware comparison with relative tolerance; non-finite values agree when both are non-finite
-    (the model's None = nan or +-inf)"""
+    """comparison with relative tolerance on finite values; nan only equals nan and an infinity only the same infinity
+    (IEEE classes are deterministic: den3 in Coq and the Python evaluators specify them)"""
     fa = a == a and not math.isinf(a)
     fb = b == b and not math.isinf(b)
     if not fa or not fb:
-        return fa == fb
+        return (a != a and b != b) or (math.isinf(a) and math.isinf(b) and (a > 0) == (b > 0))
     if a == b:
         return True
     return abs(a - b) <= TOL * max(abs(a), abs(b))
@@ -306,7 +305,8 @@ def near_dupes(vals):
 PRESET_LISTS = [("minimal", 18), ("default", 26), ("fw-transformers", 12), ("default,minimal", 9), ("minimal,default", 9),
                 ("fw-transformers,minimal", 5), ("minimal,fw-transformers", 4), ("default,fw-transformers", 3),
                 ("minimal,minimal", 3), ("fw-transformers,default,minimal", 3), ("default,default,minimal", 2)]
-COLNAMES = ["f1", "price", "x_2", "ctr", "é", "a b", "col-3", "Q", "n_tr"]
+# (names containing the project's own separator '_tr_' are ordinary feature names)
+COLNAMES = ["f1", "price", "x_2", "ctr", "é", "a b", "col-3", "Q", "n_tr", "clicks_tr_raw", "_tr_", "n_tr_1"]
 GRID = [1, 2, 4, 8, 16, 32, 64, 96]
 
 
@@ -336,8 +336,10 @@ def _num(rng):
     if k < 0.80:
         return rng.choice(["1e300", "-1e300", "1e-300", "1.5e308", "1e154", "1e155", "-1e155", "123456789012345678",
                            "-1e9", "-3e8", "1e16"])
-    if k < 0.88:
+    if k < 0.86:
         return rng.choice(["3e2", "2.5E-3", "+7", "7.", ".5", "-.25", "1E+2", "-12.50e1", "0.1", "0.3"])
+    if k < 0.92:       # edge values float() accepts: infinities, nan, largest / subnormal magnitudes, negative zero
+        return rng.choice(["inf", "-inf", "inf", "-inf", "nan", "1e308", "-1e308", "-0.0", "1e-320", "Infinity", "-INF"])
     return str(rng.randint(-3, 3))
 
 
@@ -495,6 +497,9 @@ def gen_case(rng, big=False):
         case["dtypes"] = dtypes
     if rng.random() < 0.5:
         case["extra"] = [["label", [rng.choice(["a", "b", ""]) for _ in range(n)]]]
+    if rng.random() < 0.10:      # a raw column that already carries a name the construction will generate
+        k = rng.choice(["_tr_sqrt", "_tr_log(x+1)", "_tr_sqrt(abs(x))", "_tr_log(abs(x)+1)"])
+        case.setdefault("extra", []).append([names[0] + k, ["raw%d" % rng.randint(0, 3) for _ in range(n)]])
     return case
 
 
@@ -961,6 +966,9 @@ def _check(run, replay):
                     viol("union (transformer_collection)", {"preset": c["preset"], "columns": [["c", ["1", "2", "3"]]]},
                          impl=[k, v], model=[k, src[k]], clause="later presets override earlier ones")
         new = {nm: vs for nm, vs in r["new"]}
+        if r.get("originals_intact") is False:
+            viol("appended columns carry the rendered values", c, impl="an original column changed",
+                 clause="the input columns are kept as they are (judged by position)")
         if r.get("rows_after") != nrows:
             viol("appended columns carry the rendered values", c, impl=r.get("rows_after"), model=nrows,
                  clause="appended columns are row-aligned")
@@ -1082,6 +1090,8 @@ def _check(run, replay):
                 if rd is None:
                     stats["names_without_reading"] += 1
                 fr_col = Fragile()
+                fr_rd = Fragile()
+                rvs = []
                 mvs = []
                 for rix, (x, iv) in enumerate(zip(xs, ivs)):
                     if iv != iv or math.isinf(iv):
@@ -1120,6 +1130,8 @@ def _check(run, replay):
                     if rd is not None:
                         fr = Fragile()
                         rv = rd(xs, x, fr)
+                        rvs.append(rv)
+                        fr_rd.hit = fr_rd.hit or fr.hit
                         if fr.hit and not close(iv, rv):
                             stats["excluded_rounding_sensitive_values"] += 1
                         else:
@@ -1128,6 +1140,16 @@ def _check(run, replay):
                                 viol("values vs reading of the name", _value_case(c, col, cells, xs, rix, ["MaxX"]),
                                      impl=strs[rix], model=repr(rv),
                                      clause="%s at X=%r holds %s, the name reads as %r" % (name, x, strs[rix], rv))
+                # -- keep/drop decided from the reading of the name (the only independent values when the formula has no
+                #    translation in this run)
+                if len(rvs) == len(xs) and xs and len(mvs) != len(xs):
+                    ind = keep_py([repr(v) for v in rvs])
+                    if ind != emitted and not (fr_rd.hit or near_dupes(rvs) or near_dupes(ivs)):
+                        viol("keep/drop vs independently computed values", one_col(c, col),
+                             impl={"appended": emitted}, model={"keep": ind},
+                             clause="%s: emitted iff the named formula on the parsed cells has >1 distinct value, most frequent "
+                                    "< 80%% of rows, nan < 75%% of rows" % name,
+                             extra={"reading": [repr(v) for v in rvs][:60], "rendered": strs[:60]})
                 # -- keep/drop decided from independently computed values
                 if len(mvs) == len(xs) and xs:
                     ind = keep_py([repr(v) for v in mvs])
